@@ -138,12 +138,20 @@ func checkC09(w *Worker) {
 			x.Case(full, k > 0)
 			var files map[string]string
 			var cmds [][]string
+			// the file the malformed one is read together with: ordinary, empty, or holding nothing but a comment
+			otherEmpty := role != 2 && x.Choose(2, "input:the-other-file-holds-only-a-comment") == 1
 			switch role {
 			case 0:
 				files = map[string]string{"food.yaml": full, "log.yaml": goodLog}
+				if otherEmpty {
+					files["log.yaml"] = "# nothing here yet\n\n"
+				}
 				cmds = c09DbCmds
 			case 1:
 				files = map[string]string{"food.yaml": goodBook, "log.yaml": full}
+				if otherEmpty {
+					files["food.yaml"] = "# nothing here yet\n\n"
+				}
 				cmds = c09LogCmds
 			default:
 				files = map[string]string{"file.yaml": full, "food.yaml": goodBook, "log.yaml": goodLog}
